@@ -1,4 +1,6 @@
 import DracoProofs.Tagged
+import DracoProofs.SymbolComplete
+import Generated.Constants
 /-
   C08 — rANS symbol entropy coder (`EncodeSymbols` / `DecodeSymbols`,
   src/draco/compression/entropy/{ans.h, rans_symbol_*.h, symbol_encoding.cc, symbol_decoding.cc}).
@@ -22,9 +24,13 @@ import DracoProofs.Tagged
     counters; the tagged coder additionally does `++frequencies[32]` on a 32 entry array),
   * `RAnsSymbolEncoder::Create` returning false — its result is IGNORED by
     `EncodeTaggedSymbols` / `EncodeRawSymbolsInternal`, which would go on with an unfinished
-    table.  No input with this behaviour is known; in ~4000 random comparisons against the
-    library `Create` never failed.  Not proved unreachable: that needs monotonicity facts about
-    the floating point oracle and the correctness of the sort.
+    table.  Sections 6–8 prove this unreachable for every oracle with the five properties listed
+    at `create_complete` (`ProbOracle.exact` has them, `exactOracle_regular`); that binary64
+    arithmetic has them is an assumption about IEEE 754 (rounding is monotone, `x/x = 1`,
+    relative error 2^-53), not a theorem: `Float` is opaque to Lean.
+
+  Sections 6–9 (added by slice c08plus): `create_complete` (no failure, loop fuel adequate),
+  `precision_suffices`, `symbols_failure_characterised`, `scheme_choice_irrelevant`.
 -/
 namespace Draco
 
@@ -185,5 +191,189 @@ theorem symbols_roundtrip_zero_components_fails :
       decide +kernel
     have := symbols_roundtrip ProbOracle.exact .tagged 7 1 [5] _ (by decide) (by decide) e []
     simpa using this
+
+/-! ### 6. `Create` does not fail and its rescaling loop terminates
+
+  The model's `createProbs` answers `none` for `return false` AND when the fuel of
+  `rescaleLoop` (= the initial `error`) runs out; so `some` below means: the C++ `while (error >
+  0)` loop ends after at most `error` runs of its `for` loop and no `return false` is taken. -/
+
+/-- `RAnsSymbolEncoder::Create` succeeds for total frequency `T > 0` and precision `P = 2^pb`
+    when fewer than `P` symbols occur and the two `double` expressions satisfy
+    * `est 0 = 0`                     (a zero frequency gets probability 0),
+    * `est T ≤ P`                     (`T/T·P + 0.5` truncates to at most `P`; `x/x = 1`),
+    * `T·est f ≤ f·P + T`             (the estimate is at most 1 above the exact `f·P/T`),
+    * `rescale A p ≤ p` for `P < A`   (multiplying by `P/A < 1` and flooring does not increase),
+    * `rescale A` monotone for `P < A`(monotone rounding).
+    The returned table sums to `P`, is positive on every occurring symbol and has been
+    accepted by `EncodeTable`.  The bound `#used < P` is sharp for these hypotheses
+    (`create_fails_at_full_alphabet`); the code only ever has `4·#used ≤ P`
+    (`precision_suffices`) resp. `#used ≤ 32`, `P = 4096` (tag coder). -/
+theorem create_complete (o : ProbOracle) (pb : Nat) (freqs : List Nat) (hpb : pb ≤ 21)
+    (hlen : freqs.length < 2 ^ 32) (hT : 0 < sumNat freqs)
+    (hest0 : o.est 0 (sumNat freqs) (2 ^ pb) = 0)
+    (hestT : o.est (sumNat freqs) (sumNat freqs) (2 ^ pb) ≤ 2 ^ pb)
+    (hest : ∀ f, 0 < f → f ≤ sumNat freqs →
+      sumNat freqs * o.est f (sumNat freqs) (2 ^ pb) ≤ f * 2 ^ pb + sumNat freqs)
+    (hres_le : ∀ A p, 2 ^ pb < A → o.rescale (2 ^ pb) A p ≤ p)
+    (hres_mono : ∀ A p q, 2 ^ pb < A → p ≤ q → o.rescale (2 ^ pb) A p ≤ o.rescale (2 ^ pb) A q)
+    (hused : (freqs.filter (· > 0)).length < 2 ^ pb) :
+    ∃ probs tbl, ransSymbolEncoderCreate o pb freqs = some (probs, tbl) ∧
+      probs.sum = 2 ^ pb ∧ (∀ i, 0 < freqs.getD i 0 → 1 ≤ probs.getD i 0) := by
+  obtain ⟨probs, tbl, h⟩ := encoderCreate_complete o pb hpb freqs hlen hT
+    ⟨hest0, hestT, hest, hres_le, hres_mono⟩ hused
+  obtain ⟨h1, _, h3, _⟩ := create_sound o pb freqs probs tbl h
+  exact ⟨probs, tbl, h, h1, h3⟩
+
+/-- non-vacuity: the exact oracle has the five properties; the over-allocating input of
+    section 3 (six symbols of equal frequency, 6 × 683 = 4098 > 4096) runs the loop -/
+example : ∃ probs tbl, ransSymbolEncoderCreate ProbOracle.exact 12 [1, 1, 0, 1, 1, 1, 1, 0, 0]
+    = some (probs, tbl) ∧ probs.sum = 2 ^ 12 := by
+  have ok := exactOracle_ok (sumNat [1, 1, 0, 1, 1, 1, 1, 0, 0]) (2 ^ 12) (by decide)
+  obtain ⟨probs, tbl, h, hs, _⟩ := create_complete ProbOracle.exact 12 [1, 1, 0, 1, 1, 1, 1, 0, 0]
+    (by decide) (by decide) (by decide) ok.est_zero ok.est_full ok.est_le ok.rescale_le
+    ok.rescale_mono (by decide)
+  exact ⟨probs, tbl, h, hs⟩
+
+/-- an oracle that over-estimates by exactly one (`⌊f·P/T⌋ + 1`, allowed by the third
+    hypothesis) and rescales exactly -/
+def ProbOracle.plusOne : ProbOracle where
+  est := fun f T P => if f = 0 then 0 else if f = T then P else f * P / T + 1
+  rescale := fun P A p => P * p / A
+
+/-- Sharpness of `#used < P`: with `P = 4` and four symbols of equal frequency the oracle
+    `plusOne` (which satisfies the five hypotheses) drives `Create` into
+    "Most frequent symbol would be empty" (`return false`). -/
+theorem create_fails_at_full_alphabet :
+    createProbs ProbOracle.plusOne 2 [1, 1, 1, 1] = none ∧
+    ProbOracle.plusOne.est 0 4 4 = 0 ∧ ProbOracle.plusOne.est 4 4 4 ≤ 4 ∧
+    (∀ f, 0 < f → f ≤ 4 → 4 * ProbOracle.plusOne.est f 4 4 ≤ f * 4 + 4) ∧
+    (∀ A p, 4 < A → ProbOracle.plusOne.rescale 4 A p ≤ p) ∧
+    (∀ A p q, 4 < A → p ≤ q → ProbOracle.plusOne.rescale 4 A p ≤ ProbOracle.plusOne.rescale 4 A q) := by
+  refine ⟨by decide +kernel, by decide, by decide, ?_, ?_, ?_⟩
+  · intro f h1 h2
+    have : f = 1 ∨ f = 2 ∨ f = 3 ∨ f = 4 := by omega
+    rcases this with rfl | rfl | rfl | rfl <;> decide
+  · intro A p hA
+    exact (exactOracle_ok 1 4 (by decide)).rescale_le A p hA
+  · intro A p q hA hpq
+    exact (exactOracle_ok 1 4 (by decide)).rescale_mono A p q hA hpq
+
+/-! ### 7. the precision of the raw scheme -/
+
+/-- the level adjustment and clamp of `EncodeRawSymbols` as a function of the bit length of
+    `num_unique_symbols` -/
+def rawBitLengthOfBits (b level : Nat) : Nat :=
+  let b' := if level < 4 then b - 2 else if level < 6 then b - 1
+            else if level > 9 then b + 2 else if level > 7 then b + 1 else b
+  min (max 1 b') 18
+
+theorem rawBitLength_eq (u level : Nat) :
+    rawBitLength u level = rawBitLengthOfBits (bitLength u) level := rfl
+
+/-- `ComputeRAnsPrecisionFromUniqueSymbolsBitLength` of the model = the values obtained by
+    running the C++ function (regenerated from the source on every run), and the raw limit -/
+theorem precision_table_generated :
+    (∀ b, b ≤ 32 → (ransPrecisionBits b : Int) = Generated.ransPrecisionTable.getD b 0) ∧
+    Generated.kMaxRawEncodingBitLength = 18 := by
+  decide
+
+/-- Finite form over the generated table: for every compression level 0..10 and every bit
+    length 1..18 of the number of distinct symbols (the raw scheme rejects more), the precision
+    the C++ selects is at least `bit length + 2`. -/
+theorem precision_suffices_table :
+    ∀ level : Nat, level ≤ 10 → ∀ b : Nat, b ≤ 18 → 1 ≤ b →
+      ((b : Nat) : Int) + 2 ≤ Generated.ransPrecisionTable.getD (rawBitLengthOfBits b level) 0 := by
+  decide
+
+/-- For every compression level (0..10 and beyond) and every number `u` of distinct symbols the
+    raw scheme admits (`bitLength u ≤ 18`, i.e. `u < 2^18`) the rANS precision chosen satisfies
+    `4·u ≤ 2^precision`; in particular `u < 2^precision`, the hypothesis of `create_complete`. -/
+theorem precision_suffices (level u : Nat) (h : bitLength u ≤ 18) :
+    4 * u ≤ 2 ^ ransPrecisionBits (rawBitLength u level) ∧
+    u < 2 ^ ransPrecisionBits (rawBitLength u level) := by
+  have h1 := rawPrecision_suffices u level h
+  have : 0 < 2 ^ ransPrecisionBits (rawBitLength u level) := Nat.two_pow_pos _
+  exact ⟨h1, by omega⟩
+
+/-- non-vacuity: 2^18 - 1 distinct symbols at the lowest level: 16 bits → precision 20 -/
+example : bitLength (2 ^ 18 - 1) ≤ 18 ∧ rawBitLength (2 ^ 18 - 1) 0 = 16 ∧
+    ransPrecisionBits (rawBitLength (2 ^ 18 - 1) 0) = 20 := by decide +kernel
+
+/-! ### 8. when `EncodeSymbols` fails -/
+
+/-- For an oracle with the properties of `create_complete` (for all totals and precisions:
+    `ProbOracle.Regular`) and fewer than 2^32 symbols, `encodeSymbolsWith` answers `none`
+    exactly when the input is non-empty and
+    * the raw scheme is requested and a symbol is ≥ 2^31            (C++ `return false`, fix 4efb996),
+    * the raw scheme is requested and `num_unique_symbols ≥ 2^18`   (C++ `return false`),
+    * `num_values` is not a multiple of `num_components`            (C++ undefined: reads past the input),
+    * a symbol is ≥ 2^32                                            (not a `uint32_t`).
+    Nothing else fails: `Create`'s ignored result is always true, the rANS coder and
+    `EncodeTable` accept the table.  `numUniqueSymbols` = number of non-empty bins of the
+    histogram.  (An unknown `symbol_encoding_method` is not representable in `Scheme`; the
+    driver op maps it to failure like the C++ does.) -/
+theorem symbols_failure_characterised (o : ProbOracle) (hreg : o.Regular) (choice : Scheme)
+    (level comps : Nat) (syms : List Nat) (hlen : syms.length < 2 ^ 32) :
+    encodeSymbolsWith o choice level comps syms = none ↔
+      syms ≠ [] ∧
+      (syms.length % (if comps = 0 then 1 else comps) ≠ 0 ∨ listMax syms ≥ 2 ^ 32 ∨
+        (choice = .raw ∧ (listMax syms ≥ 2 ^ 31 ∨ bitLength (numUniqueSymbols syms) > 18))) :=
+  encodeSymbolsWith_none_iff o hreg choice level comps syms hlen
+
+/-- non-vacuity, both directions (exact oracle): a symbol 2^31 fails with the raw scheme and
+    is coded by the tagged scheme -/
+example : encodeSymbolsWith ProbOracle.exact .raw 7 1 [5, 2 ^ 31] = none ∧
+    ∃ bs, encodeSymbolsWith ProbOracle.exact .tagged 7 1 [5, 2 ^ 31] = some bs := by
+  have hm : listMax [5, 2 ^ 31] = 2 ^ 31 := by decide
+  constructor
+  · rw [symbols_failure_characterised _ exactOracle_regular _ _ _ _ (by decide)]
+    refine ⟨by simp, Or.inr (Or.inr ⟨rfl, Or.inl ?_⟩)⟩
+    rw [hm]
+  · cases h : encodeSymbolsWith ProbOracle.exact .tagged 7 1 [5, 2 ^ 31] with
+    | some bs => exact ⟨bs, rfl⟩
+    | none =>
+      rw [symbols_failure_characterised _ exactOracle_regular _ _ _ _ (by decide)] at h
+      rw [hm] at h
+      simp at h
+
+/-! ### 9. the choice of the scheme -/
+
+/-- The Shannon entropy estimate that picks the scheme (floating point, `chooseScheme`) — or
+    any other rule `choose` — has no influence on decodability: whatever scheme it returns, a
+    block that is emitted decodes to the input and is consumed exactly.  (`DecodeSymbols`
+    reads the scheme from the first byte.) -/
+theorem scheme_choice_irrelevant (o : ProbOracle) (choose : Nat → List Nat → Scheme)
+    (level comps : Nat) (syms : List Nat) (bs : Bytes) (hc : 0 < comps)
+    (hlen : syms.length < 2 ^ 32)
+    (h : encodeSymbolsWith o (choose comps syms) level comps syms = some bs) :
+    ∀ rest, decodeSymbols syms.length comps (bs ++ rest) = some (syms, rest) :=
+  symbols_roundtrip o (choose comps syms) level comps syms bs hc hlen h
+
+/-- the blocks of the two schemes decode to the same values -/
+theorem scheme_choice_same_values (o : ProbOracle) (level comps : Nat) (syms : List Nat)
+    (b1 b2 : Bytes) (hc : 0 < comps) (hlen : syms.length < 2 ^ 32)
+    (h1 : encodeSymbolsWith o .tagged level comps syms = some b1)
+    (h2 : encodeSymbolsWith o .raw level comps syms = some b2) :
+    (decodeSymbols syms.length comps b1).map Prod.fst
+      = (decodeSymbols syms.length comps b2).map Prod.fst := by
+  have e1 := symbols_roundtrip o .tagged level comps syms b1 hc hlen h1 []
+  have e2 := symbols_roundtrip o .raw level comps syms b2 hc hlen h2 []
+  simp only [List.append_nil] at e1 e2
+  rw [e1, e2]
+
+/-- non-vacuity: the automatic (floating point) choice as `choose` -/
+example (level comps : Nat) (syms : List Nat) (bs : Bytes) (hc : 0 < comps)
+    (hlen : syms.length < 2 ^ 32) (h : encodeSymbols level none comps syms = some bs) :
+    ∀ rest, decodeSymbols syms.length comps (bs ++ rest) = some (syms, rest) :=
+  scheme_choice_irrelevant ProbOracle.float chooseScheme level comps syms bs hc hlen h
+
+/-- non-vacuity of `scheme_choice_same_values`: both schemes succeed on the same input, with
+    different blocks -/
+example : encodeSymbolsWith ProbOracle.exact .tagged 7 1 [3, 1, 4, 1, 5]
+      = some [0, 4, 3, 153, 25, 205, 12, 157, 25, 3, 32, 215, 176, 231, 2] ∧
+    encodeSymbolsWith ProbOracle.exact .raw 7 1 [3, 1, 4, 1, 5]
+      = some [1, 3, 6, 3, 157, 25, 3, 205, 12, 205, 12, 205, 12, 4, 254, 55, 136, 128] := by
+  constructor <;> decide +kernel
 
 end Draco
